@@ -95,7 +95,7 @@ class AliasDeref:
     def alias_facts(self, fn: FunctionInfo, node: ast.AST) -> set[tuple[str, bool]]:
         return self.ef._alias_facts(fn, node)
 
-    def scan(self, fns: list[FunctionInfo], tabled: dict[tuple[str, str], str]) -> list[Site]:
+    def scan(self, fns: list[FunctionInfo], tabled: dict[tuple[str, str], str], *, object_may_be_alias: bool = False) -> list[Site]:
         out: list[Site] = []
         for f in fns:
             for n in walk_no_nested(f.node):
@@ -105,7 +105,9 @@ class AliasDeref:
                 recv = n.value
                 rtext = unparse(recv)
                 types = self.cg.type_of(f, recv)
-                if (types and self.alias not in types) or rtext == "self":
+                # an annotation that names the base class `Object` does not exclude aliases (they stand in for objects everywhere): only a
+                # specific class (Module, Class, Parameter, ...) does
+                if (types and self.alias not in types and not (object_may_be_alias and any(t.name == "Object" for t in types))) or rtext == "self":
                     continue
                 facts = self.alias_facts(f, n)
                 if (rtext, False) in facts:
